@@ -187,7 +187,8 @@ type c19Scenario struct {
 
 func (s *c19Scenario) key(k string) string { return s.prefix + k }
 
-// recv records one snapshot of a consumer. `m` maps short key names to values.
+// recv records one snapshot of a consumer. `m` maps short key names to values. The view and the
+// log are updated together under the consumer's lock (converge reads both under the same lock).
 func (s *c19Scenario) recv(cn *c19Consumer, m map[string]string) {
 	v := c19EmptyView()
 	for k, val := range m {
@@ -196,8 +197,8 @@ func (s *c19Scenario) recv(cn *c19Consumer, m map[string]string) {
 	cn.mu.Lock()
 	cn.view = v
 	cn.n++
-	cn.mu.Unlock()
 	s.log.Emit(vx.M{"ev": "snap", "c": cn.id, "val": c19ViewM(v)})
+	cn.mu.Unlock()
 }
 
 func (s *c19Scenario) short(full string) string {
@@ -429,48 +430,52 @@ func (s *c19Scenario) burst(n int, cli *clientv3.Client) {
 	}
 }
 
-// converge waits until every consumer's view equals the content read back from the store, or the
-// deadline passes, then logs the views as `conv` claims.
+// converge waits until every consumer's view equals the content read back from the store and no
+// consumer received anything between two polls (or a generous deadline passes), then logs the views
+// as `conv` claims - with all consumers locked, so that the claims are about the logged snapshots.
 func (s *c19Scenario) converge() {
 	if s.failed != "" {
 		return
 	}
 	deadline := time.Now().Add(c19ConvDeadline)
+	lastN := -1
 	for {
 		kvs, err := s.c.GetPrefix(s.prefix)
-		all := err == nil
-		if err == nil {
-			cur := c19EmptyView()
-			for k, v := range kvs {
-				cur[s.short(k)] = v
+		cur := c19EmptyView()
+		for k, v := range kvs {
+			cur[s.short(k)] = v
+		}
+		for _, cn := range s.cons {
+			cn.mu.Lock()
+		}
+		all, total := err == nil, 0
+		for _, cn := range s.cons {
+			total += cn.n
+			for _, k := range c19Keys {
+				want := cur[k]
+				if cn.kind == "key" && k != "k1" {
+					want = "none"
+				}
+				if cn.view[k] != want {
+					all = false
+				}
+			}
+		}
+		stable := all && total == lastN
+		lastN = total
+		if stable || time.Now().After(deadline) {
+			for _, cn := range s.cons {
+				s.log.Emit(vx.M{"ev": "conv", "c": cn.id, "view": c19ViewM(cn.view), "snapshots": cn.n, "in_time": stable})
 			}
 			for _, cn := range s.cons {
-				cn.mu.Lock()
-				for _, k := range c19Keys {
-					want := cur[k]
-					if cn.kind == "key" && k != "k1" {
-						want = "none"
-					}
-					if cn.view[k] != want {
-						all = false
-					}
-				}
 				cn.mu.Unlock()
 			}
+			return
 		}
-		if all || time.Now().After(deadline) {
-			break
+		for _, cn := range s.cons {
+			cn.mu.Unlock()
 		}
-		time.Sleep(50 * time.Millisecond)
-	}
-	// let late duplicates, if any, show up
-	time.Sleep(c19PullInterval + c19PullInterval/2)
-	for _, cn := range s.cons {
-		cn.mu.Lock()
-		v := c19ViewM(cn.view)
-		n := cn.n
-		cn.mu.Unlock()
-		s.log.Emit(vx.M{"ev": "conv", "c": cn.id, "view": v, "snapshots": n})
+		time.Sleep(c19PullInterval + 50*time.Millisecond)
 	}
 }
 
